@@ -283,7 +283,7 @@ Proof.
   - symmetry. erewrite map_ext; [apply map_id|]. intros l. unfold indent_line. destruct (is_blank l); reflexivity.
 Qed.
 
-(* ---------- build_model: CODE is the text; the SyntaxError fallback ---------- *)
+(* ---------- build_model: exec of the text, CODE, BuildError (fix 56579cc) ---------- *)
 Section Exec.
   Variable St Cls : Type.
   Variable conv : St -> symbol -> St * string.
@@ -295,22 +295,67 @@ Section Exec.
     build_model_M St Cls conv exec st syms o h = (st', Built c text).
   Proof. intros B E. unfold build_model_M. rewrite B, E. reflexivity. Qed.
 
-  (* hence executing CODE again gives the same class as executing build_model_definition's text *)
-  Theorem exec_of_code st syms o h st' c code :
-    build_model_M St Cls conv exec st syms o h = (st', Built c code) ->
-    (exists text, snd (build_def St conv st syms o h) = POk text /\ exec text = ExecOk c) ->
-    snd (build_def St conv st syms o h) = POk code.
+  (* build_model returns a class iff the generated text executes; the class is exec(text), CODE is the text *)
+  Theorem build_model_returns_iff_text_executes st syms o h st' c code :
+    build_model_M St Cls conv exec st syms o h = (st', Built c code) <->
+    (build_def St conv st syms o h = (st', POk code) /\ exec code = ExecOk c).
   Proof.
-    intros B (text & T & E). unfold build_model_M in B. destruct (build_def St conv st syms o h) as [s1 r]. cbn [snd] in *.
-    subst r. rewrite E in B. inversion B; reflexivity.
+    split.
+    - unfold build_model_M. destruct (build_def St conv st syms o h) as [s1 [text|e|]]; try (intros H; discriminate).
+      destruct (exec text) as [c0| |e] eqn:E; [intros H; inversion H; subst; auto| |intros H; discriminate].
+      destruct (retry_each Cls exec syms false); intros H; discriminate.
+    - intros [B E]. apply build_model_is_exec_of_text; assumption.
   Qed.
 
-  (* whatever happens, a class that build_model returns carries the full text as CODE *)
+  (* a text that does not compile never yields a class: BuildError chained from the SyntaxError — whether or not some
+     single symbol reproduces the error — unless the retry loop itself lets another exception through *)
+  Theorem build_model_syntax_error st syms o h st' text :
+    build_def St conv st syms o h = (st', POk text) -> exec text = ExecSyntaxError ->
+    match retry_each Cls exec syms false with
+    | inl listed => build_model_M St Cls conv exec st syms o h = (st', BuildError listed)
+    | inr e => build_model_M St Cls conv exec st syms o h = (st', BuildRaise e)
+    end.
+  Proof. intros B E. unfold build_model_M. rewrite B, E. destruct (retry_each Cls exec syms false); reflexivity. Qed.
+
+  (* the retry loop reports `listed` exactly when some symbol with an equation, alone and with the default converter and
+     template, fails to compile (given that nothing else is raised) *)
+  Lemma retry_each_listed syms : forall failed b, retry_each Cls exec syms failed = inl b ->
+    b = failed || existsb (fun s => match sequation s with
+                                    | None => false
+                                    | Some _ => match snd (build_def unit conv_default tt [s] default_opts true) with
+                                                | POk text => match exec text with ExecSyntaxError => true | _ => false end
+                                                | _ => false
+                                                end
+                                    end) syms.
+  Proof.
+    induction syms as [|s r IH]; intros failed b H; cbn [retry_each existsb] in *.
+    - inversion H. rewrite orb_false_r. reflexivity.
+    - destruct (sequation s); [|rewrite (IH _ _ H); reflexivity].
+      destruct (snd (build_def unit conv_default tt [s] default_opts true)) as [text|e|]; try discriminate.
+      destruct (exec text); try discriminate; rewrite (IH _ _ H); cbn; [reflexivity|].
+      rewrite orb_true_r. destruct failed; reflexivity.
+  Qed.
+
+  (* every outcome of build_model, by what exec says about the text *)
+  Theorem build_model_outcomes st syms o h :
+    match build_def St conv st syms o h with
+    | (st', POk text) =>
+      match exec text with
+      | ExecOk c => build_model_M St Cls conv exec st syms o h = (st', Built c text)
+      | ExecOther e => build_model_M St Cls conv exec st syms o h = (st', BuildRaise e)
+      | ExecSyntaxError => (exists listed, build_model_M St Cls conv exec st syms o h = (st', BuildError listed)) \/
+                           (exists e, build_model_M St Cls conv exec st syms o h = (st', BuildRaise e))
+      end
+    | (st', PErr e) => build_model_M St Cls conv exec st syms o h = (st', BuildRaise e)
+    | (st', PUnmodelled) => build_model_M St Cls conv exec st syms o h = (st', BuildUnmodelled)
+    end.
+  Proof.
+    unfold build_model_M. destruct (build_def St conv st syms o h) as [s1 [text|e|]]; try reflexivity.
+    destruct (exec text); try reflexivity. destruct (retry_each Cls exec syms false); [left|right]; eauto.
+  Qed.
+
+  (* a returned class carries the text of build_model_definition (same arguments) as CODE *)
   Theorem code_is_text st syms o h st' c code :
     build_model_M St Cls conv exec st syms o h = (st', Built c code) -> snd (build_def St conv st syms o h) = POk code.
-  Proof.
-    unfold build_model_M. destruct (build_def St conv st syms o h) as [s1 [text|e|]]; cbn [snd]; try (intros H; discriminate).
-    destruct (exec text); [intros H; inversion H; reflexivity| |intros H; discriminate].
-    destruct (retry_each Cls exec syms None false) as [[[cl|] [|]]|e]; intros H; try discriminate; inversion H; reflexivity.
-  Qed.
+  Proof. intros H. apply build_model_returns_iff_text_executes in H as [B _]. rewrite B. reflexivity. Qed.
 End Exec.
